@@ -35,6 +35,12 @@ CHECKS = {
  'C10': dict(cat='model_checking', design='5/C10', technique='TLA+ Limits module (verdict functions per container-opening path, max_items, claimed-length headers and memory bound) enumerated by TLC; verdicts replayed through decoders and encoders; allocation meter and fixed-stack thread as sensors',
    text='TLC enumerates format x container-opening path x limit x depth around the limit for decoders and encoders, UBJSON max_items x announced counts, and claimed-length headers x payloads, each with the predicted verdict (accept iff depth <= limit; refuse iff count > max_items; claims beyond supply are errors); the harness replays them, measures the allocation peak against the spec bound, and runs copy/compare/dump/destroy of nested values (depth 1024; destroy at 10^6) on a 1 MiB stack.',
    note='Heap peak and stack use are harness measurements with deliberately loose constants. Limits 0..16 (quick) / ..1024 (thorough).'),
+ 'C19': dict(cat='fault_enumeration', design='5/C19', technique='TLA+ AllocLedger protocol (model-checked) + TLC trace validation of allocation events recorded from forked executions with the n-th allocation of the operation failing, for every n',
+   text='For each of 75 (scenario, input) pairs enumerated by TLC and every n in 1..N the harness forks an execution in which the n-th allocation inside the operation window throws std::bad_alloc (global operator new and a stateful tracking allocator), recording Reset/Alloc/Free/Begin/Fail/End/Probe/Destroyed events; Trace_C19 replays them through the AllocLedger actions: frees must match a live block with the same size and an equal allocator, the failure must surface as bad_alloc, survivors must be usable (and equal to the pre-call state for apply_patch and read-only queries), nothing may be live after destruction; a crash has no action.',
+   note='One-shot failures; window = the operation; allocations made by destructors (flatten_and_destroy, via the guarded destroy_scope hook) are not failed. Quick tier thins very long operations to 150 failure points per pair.'),
+ 'C12': dict(cat='model_checking', design='5/C12', technique='TLA+ JSONPath evaluator (selectors, slices per RFC 9535 normalisation, filters, recursive descent, unions, parent) with un-parser; TLC checks path-resolution/option/slice/replace laws as invariants and enumerates (document, query) cases replayed through json_query, compiled expressions, callbacks, json_replace',
+   text='TLC builds queries segment by segment over a bounded document universe, carrying the spec evaluation; invariants check that every result path resolves to its value, nodups/sort laws, the slice closed form and replace laws; each (document, query) case with predicted (normalized path, value) list is replayed through json_query (values/paths/callback), make_expression.evaluate (twice), select_paths, result options, get/parse/to_string of every returned path, json_replace/update, for json and ojson in up to 4 notations. The spec is first validated against jsoncons own test_data (342 cases reproduced).',
+   note='Built by a sub-agent under the lead engineer review; regex, arithmetic and most functions are excluded; order compared as multiset where an object with >= 2 members was enumerated. See notes/C12.md for dont-care classes.'),
 }
 NA = {}
 
